@@ -369,8 +369,19 @@ func (ex *Exec) ensureModel() {
 }
 
 // concretise returns a concrete value for t, forking over every feasible one.
-func (ex *Exec) concretise(t *Term) uint64 {
+func (ex *Exec) concretise(t *Term) uint64 { return ex.concretiseUpTo(t, 0) }
+
+// concretiseUpTo is concretise with a bound on the enumeration: after max
+// values have been tried the remaining ones are cut off (the path is pruned with
+// a "bound:" note that ends up in the evidence). Used where an integer is only
+// rendered as text, e.g. into a panic message, and may range over the whole type.
+func (ex *Exec) concretiseUpTo(t *Term, max int) uint64 {
+	tries := 0
 	for {
+		if max > 0 && tries >= max {
+			panic(abortPath{outPruned, fmt.Sprintf("bound: a symbolic integer rendered as text was explored for %d values only", max)})
+		}
+		tries++
 		if t.IsConst() {
 			return t.Val
 		}
